@@ -135,7 +135,7 @@ func c09Directed(tier string) [][]uint64 {
 		}
 		out = append(out, []uint64{1, 9, p % uint64(len(c09BlockURIs)), p % 2 * 4, p, p % 10})
 	}
-	for v := uint64(0); v < 10; v++ {
+	for v := uint64(0); v < 14; v++ {
 		out = append(out, []uint64{1, 10, 0, v % 2 * 5 % 9, v, v % 2})
 	}
 	// structure-aware mutations of every base
@@ -672,7 +672,7 @@ func c09Cipher(r *core.Run, s *Std, spKey int, spCert *world.Cert, kindRaw, algR
 		wrap(keyAlg, symKey)
 		ct = make([]byte, 44)
 		opts.EmbedCert = spCert.DER
-		detail = fmt.Sprintf("x509data-variant=%d", p1%10)
+		detail = fmt.Sprintf("x509data-variant=%d", p1%14)
 	}
 	if ekErr != nil {
 		// e.g. message too long for the RSA key: nothing to deliver
@@ -693,7 +693,10 @@ func c09Cipher(r *core.Run, s *Std, spKey int, spCert *world.Cert, kindRaw, algR
 	case "x509data-variants":
 		good := base64.StdEncoding.EncodeToString(spCert.DER)
 		half := len(good) / 2
-		v := []string{"!!!not base64!!!", "", " ", good[:half], good[:half] + "\n" + good[half:], " " + good + " ", base64.StdEncoding.EncodeToString(s.IdPCert.DER), "AAAA", good + good, "===="}[p1%10]
+		ecCert := world.MintCert(world.FirstEC, s.Epoch.Add(-time.Hour), s.Epoch.Add(100*time.Hour), 5)
+		lookalike := world.MintLookalike(spCert, 6)
+		v := []string{"!!!not base64!!!", "", " ", good[:half], good[:half] + "\n" + good[half:], " " + good + " ", base64.StdEncoding.EncodeToString(s.IdPCert.DER), "AAAA", good + good, "====",
+			base64.StdEncoding.EncodeToString(ecCert.DER), base64.StdEncoding.EncodeToString(lookalike.DER), "\n", "\r\n"}[p1%14]
 		x = strings.Replace(x, good, v, 1)
 	case "bad-base64":
 		x = strings.Replace(x, "<xenc:CipherValue>", "<xenc:CipherValue>"+[]string{"!", "=", "A", "====", " \n", "AA=A"}[p1%6], 1+p1%2)
